@@ -56,6 +56,41 @@ def weights_gate(ctx, idx, rule, d, r):
     ctx.ob(rule, con, d.module.rel, good.line, not late, "len(weights) != len(arrays) raises MismatchedWeights before any arithmetic" if not late else "`%s` can run before the weight count is checked" % late[0].text())
 
 
+def _zero_sum_made_missing(fi, div):
+    """`q = x / (t or 1)` followed, before any return, by `if not t:` / `if t == 0:` whose body rebinds q to an all-missing array
+    (numpy.ma.masked_array(..., mask=True) / masked_all): for a zero sum every cell is missing, as the masked division made it"""
+    from engine.index import own_nodes
+
+    asg = next((n for n in own_nodes(fi.node) if isinstance(n, ast.Assign) and n.value is div and len(n.targets) == 1 and isinstance(n.targets[0], ast.Name)), None)
+    if asg is None or not isinstance(div, ast.BinOp):
+        return False
+    q = asg.targets[0].id
+    den = div.right
+    if not (isinstance(den, ast.BoolOp) and isinstance(den.op, ast.Or) and isinstance(den.values[0], ast.Name)):
+        return False
+    t = den.values[0].id
+    body = fi.node.body
+    if asg not in body:
+        return False
+    after = body[body.index(asg) + 1:]
+    for st in after:
+        if isinstance(st, ast.Return):
+            return False
+        if isinstance(st, ast.If) and not st.orelse:
+            tst = st.test
+            zero = (isinstance(tst, ast.UnaryOp) and isinstance(tst.op, ast.Not) and isinstance(tst.operand, ast.Name) and tst.operand.id == t) or \
+                (isinstance(tst, ast.Compare) and len(tst.ops) == 1 and isinstance(tst.ops[0], ast.Eq) and isinstance(tst.left, ast.Name) and tst.left.id == t and isinstance(tst.comparators[0], ast.Constant) and tst.comparators[0].value == 0)
+            if zero:
+                for b in st.body:
+                    if isinstance(b, ast.Assign) and len(b.targets) == 1 and isinstance(b.targets[0], ast.Name) and b.targets[0].id == q and isinstance(b.value, ast.Call):
+                        fn = K.src(b.value.func)
+                        if fn.endswith("masked_all") or (fn.split(".")[-1] in ("masked_array", "array", "MaskedArray") and ".ma" in fn and any(k.arg == "mask" and isinstance(k.value, ast.Constant) and k.value.value is True for k in b.value.keywords)):
+                            return True
+        if any(isinstance(x, ast.Name) and x.id == q and isinstance(x.ctx, ast.Store) for x in ast.walk(st)):
+            return False
+    return False
+
+
 def run(ctx, idx):
     ctx.assume("numpy axioms A3/A4: operators promote dtypes and mask zero divisors; augmented operators keep the target dtype and refuse a non-same_kind cast")
     ctx.rule("C07.a", "No dtype-pinned accumulation: an augmented assignment whose target may be integer (dtype of an input) with an operand that may be wider (another input, a python number, true division) is a violation — which input comes first would decide whether the command fails.")
@@ -133,6 +168,9 @@ def run(ctx, idx):
             ctx.violate("C07.c", con, d.module.rel, d.execute.node.lineno, "%s performs no array division at all" % name)
             continue
         for rec in divs:
+            if name == "WeightedMean" and isinstance(rec[2], Scal) and rec[2].sym and "|" in rec[2].sym and "sum(" in rec[2].sym and _zero_sum_made_missing(d.execute, rec[3]):
+                ctx.hold("C07.c", con, d.module.rel, rec[0], "the divisor is replaced when the weights sum to zero, and in exactly that case the quotient is replaced by an all-missing array before it is returned")
+                continue
             if name == "WeightedMean" and isinstance(rec[2], Scal) and rec[2].sym and "|" in rec[2].sym and "sum(" in rec[2].sym:
                 # the divisor is the weight sum on one path and something else on another (`sum(w) or 1`, a conditional default)
                 ctx.violate("C07.c", con, d.module.rel, rec[0], "`%s` does not divide by the weight sum itself: the divisor is replaced when the sum is zero, so weights that cancel out return the plain weighted sum as ordinary numbers instead of missing cells (division by zero yields a missing cell)" % K.src(rec[3])[:60])
